@@ -95,7 +95,7 @@ PROPS = {
 
     'C01': _p(lambda t: ['av'],
               rule='a case is a (configuration, call sequence) pair enumerated by TLC from MCMuxide (scenario av) or drawn by the seeded generator; distinct by input hash; non-trivial when some track holds >= 2 accepted samples'),
-    'C03': _p(lambda t: ['av'],
+    'C03': _p(lambda t: ['av'] if t == 'quick' else ['av', 'long'],
               rule='as C01: distinct (configuration, call sequence) pairs with >= 2 accepted samples in some track'),
     'C08': _p(lambda t: ['av'],
               rule='every case is executed with fast start on and off and the two outputs compared; non-trivial when some track holds >= 2 samples'),
